@@ -7,10 +7,12 @@ import (
 	"github.com/ipld/go-ipld-prime/datamodel"
 	nd "github.com/ipld/go-ipld-prime/internal/verifnd"
 	"github.com/ipld/go-ipld-prime/node/basicnode"
+	"github.com/ipld/go-ipld-prime/node/bindnode"
 	"github.com/ipld/go-ipld-prime/zzverif/ref/fnode"
 	"github.com/ipld/go-ipld-prime/zzverif/ref/gen"
 	"github.com/ipld/go-ipld-prime/zzverif/ref/nodecheck"
 	"github.com/ipld/go-ipld-prime/zzverif/ref/refval"
+	"github.com/ipld/go-ipld-prime/zzverif/schemas"
 )
 
 var shapes = []string{
@@ -178,6 +180,114 @@ func HEqualCopy() {
 			nd.Assert(nodecheck.AbstractEqual(refval.Of(c2), b), "a copy made with the reset builder denotes its source")
 			nd.Assert(nodecheck.AbstractEqual(refval.Of(c), a), "and the earlier copy still denotes the first value")
 		}
+	}
+	nd.Reach("end")
+}
+
+type mapU64 struct {
+	Keys   []string
+	Values map[string]uint64
+}
+
+type unionU64 struct {
+	Int    *uint64
+	String *string
+}
+
+type listU64 []uint64
+
+// HTypedUint: uint64 values over their whole range (beyond MaxInt64 they travel as UintNode) in
+// every position a typed (reflection-bound) node has — struct field, map value, list element,
+// union member — assigned as an int, as a uint node, or copied from a node of another
+// implementation: the entry is there and reads back as that value.
+func HTypedUint() {
+	ts := schemas.TypeSystem()
+	u := nd.Uint64("u")
+	want := refval.MkInt(int64(u))
+	if u > math.MaxInt64 {
+		want = refval.MkUint(u)
+	}
+	assign := func(na datamodel.NodeAssembler) error {
+		switch nd.Choose("route", 3) {
+		case 0:
+			return na.AssignNode(basicnode.NewUint(u))
+		case 1:
+			return na.AssignNode(fnode.New(want))
+		}
+		if u > math.MaxInt64 {
+			return na.AssignNode(basicnode.NewUint(u))
+		}
+		return na.AssignInt(int64(u))
+	}
+	var n datamodel.Node
+	var v *refval.V
+	var err error
+	nd.NoPanic("assemble", func() {
+		switch nd.Choose("position", 4) {
+		case 0: // map value
+			nb := bindnode.Prototype((*mapU64)(nil), ts.TypeByName("MapSI")).NewBuilder()
+			ma, _ := nb.BeginMap(2)
+			va, _ := ma.AssembleEntry("a")
+			va.AssignInt(1)
+			va, e := ma.AssembleEntry("k")
+			if e == nil {
+				e = assign(va)
+			}
+			if e == nil {
+				e = ma.Finish()
+			}
+			err, n, v = e, nb.Build(), refval.MkMap([]string{"a", "k"}, []*refval.V{refval.MkInt(1), want})
+		case 1: // union member
+			nb := bindnode.Prototype((*unionU64)(nil), ts.TypeByName("UnionK")).NewBuilder()
+			ma, _ := nb.BeginMap(1)
+			va, e := ma.AssembleEntry("Int")
+			if e == nil {
+				e = assign(va)
+			}
+			if e == nil {
+				e = ma.Finish()
+			}
+			err, n, v = e, nb.Build(), refval.MkMap([]string{"Int"}, []*refval.V{want})
+		case 2: // list element
+			nb := bindnode.Prototype((*listU64)(nil), ts.TypeByName("ListI")).NewBuilder()
+			la, _ := nb.BeginList(2)
+			e := assign(la.AssembleValue())
+			if e == nil {
+				e = la.AssembleValue().AssignInt(2)
+			}
+			if e == nil {
+				e = la.Finish()
+			}
+			err, n, v = e, nb.Build(), refval.MkList(want, refval.MkInt(2))
+		case 3: // struct field
+			nb := bindnode.Prototype((*schemas.Narrow)(nil), ts.TypeByName("Narrow")).NewBuilder()
+			ma, _ := nb.BeginMap(4)
+			var e error
+			for _, f := range []string{"N", "U", "W", "X"} {
+				va, e2 := ma.AssembleEntry(f)
+				if e2 != nil {
+					e = e2
+					break
+				}
+				if f == "X" {
+					e = assign(va)
+				} else {
+					e = va.AssignInt(0)
+				}
+				if e != nil {
+					break
+				}
+			}
+			if e == nil {
+				e = ma.Finish()
+			}
+			err, n, v = e, nb.Build(), refval.MkMap([]string{"N", "U", "W", "X"}, []*refval.V{refval.MkInt(0), refval.MkInt(0), refval.MkInt(0), want})
+		}
+	})
+	nd.Assert(err == nil, "a uint64 value is accepted in every position of a typed node bound to uint64")
+	if err == nil && n != nil {
+		nd.Assert(refval.Equal(refval.Of(n), v), "and reads back as exactly that value, in its place")
+		nd.Assert(n.Length() == int64(len(v.L)), "with the length of what was assembled")
 	}
 	nd.Reach("end")
 }
